@@ -35,6 +35,7 @@ RULE = ("statement trees of size <= N (12 quick / 25 thorough) over the name poo
 
 SIG_RBW = "C03:inner-scope-read-of-context-variable-assigned-later-by-enclosing-frame"
 SIG_NFKC = "C03:nfkc-equal-identifiers-alias"
+SIG_ESC = "C03:macro-called-after-its-defining-scope-ended"
 
 SCOPING = {"for", "with", "setb", "filt", "macro", "callb"}
 ASSIGN = {"set", "setb", "nsnew", "seta", "macro"}
@@ -289,6 +290,8 @@ def ext_features(p, acc=None):
             ext_features(s[4], acc)
         elif k in ("nsnew", "seta"):
             acc.add("namespace")
+        elif k == "calla":
+            acc.add("ns-call")
         elif k == "callo":
             acc.add("call")
     return acc
@@ -304,7 +307,8 @@ def ext_judge(ctx, env, p, ds, kind="ext"):
     """oracle O2 on one extended program: engine == reference (text, error class, exported variables)"""
     src = R.p2_src(p)
     mk = lambda: R.make_data(ds)      # noqa
-    want = R.Ref(mk()).render(p)
+    ref = R.Ref(mk())
+    want = ref.render(p)
     if want[0] == "skip":
         ctx.count("ext_skipped_budget")
         return None, src
@@ -321,16 +325,40 @@ def ext_judge(ctx, env, p, ds, kind="ext"):
         # the text of a real generator carries its address (and a loop can walk over that text): judge this
         # program on single-use iterators with a stable text form instead
         return ext_judge(ctx, env, p, R.stable(ds), kind)
+    if ref.escaped:
+        ctx.count("ext_macro_called_after_its_scope_ended")
     if R.norm_obs(real) != R.norm_obs(want):
+        # a macro called after a scope of its defining chain has ended reads that scope's python locals after
+        # they were reset (recorded finding); every other difference is a violation
         ctx.reject({"prog_repr": repr(p), "dspec_repr": repr(ds), "src": src, "kind": kind},
-                   f"engine gives {R.norm_obs(real)!r}, the scoping rules (reference O2) give {R.norm_obs(want)!r}", None)
+                   f"engine gives {R.norm_obs(real)!r}, the scoping rules (reference O2) give {R.norm_obs(want)!r}",
+                   SIG_ESC if ref.escaped else None)
+        if ref.escaped:
+            ctx.count("oracle_known_macro_escape")
     else:
         ctx.validated()
     return real, src
 
 
+_say = lambda *es: ("out", list(es))      # noqa
+_M = ("macro", "m", [], [_say(("s", "["), ("n", "a"), ("s", "]"))])
+EXT_PROBES = [
+    # a macro leaves its defining scope through a namespace attribute and is called afterwards
+    ([("nsnew", "n", []), ("for", "a", ("s", "p"), None, [_M, ("seta", "n", "v", ("n", "m"))], []), ("calla", "n", "v", [])], {}),
+    ([("nsnew", "n", []), ("with", [("a", ("i", 1))], [_M, ("seta", "n", "v", ("n", "m"))]),
+      ("with", [("a", ("i", 2))], [("calla", "n", "v", [])]), ("calla", "n", "v", [])], {}),
+    # ... and called inside its scope: must agree with the rules
+    ([("nsnew", "n", []), ("with", [("a", ("i", 1))], [_M, ("seta", "n", "v", ("n", "m")), ("calla", "n", "v", [])])], {}),
+    # block-set filter argument read before a later assignment (fixed in /repo, see known_findings.d/C03.json)
+    ([("setb", "b", [_say(("s", "q"))], ("rep", ("n", "c"))), _say(("n", "b")), ("set", "c", ("s", "Q"))], {"c": ("plain", "Z")}),
+    ([("filt", ("rep", ("n", "c")), [_say(("s", "q"))]), ("set", "c", ("s", "Q"))], {"c": ("plain", "Z")}),
+]
+
+
 def extended_stream(run_, ctx, rng, keep):
     env = ext_env(run_.jinja2)
+    for p, ds in EXT_PROBES:
+        ext_judge(ctx, env, p, ds, kind="ext-probe")
     n = ctx.size(1200, 10000)
     for i in range(n):
         g = R.EGen(rng, size=rng.randint(3, ctx.size(14, 22)))
@@ -459,6 +487,8 @@ PROBES = [
     # (program, data): the two recorded refutation witnesses first, through the real engine
     ([("set", "ﬁ", ("i", 1)), ("set", "fi", ("i", 2)), ("out", [("n", "ﬁ")])], {}),
     ([("set", "µ", ("i", 1)), ("set", "μ", ("i", 2)), ("out", [("n", "µ")])], {}),
+    ([("set", "a", ("i", 1)), ("set", "ª", ("i", 2)), ("out", [("n", "a"), ("s", "|"), ("n", "ª")])], {}),
+    ([("out", [("n", "ª"), ("s", "|"), ("n", "a")])], {"ª": "X", "a": "Y"}),      # no assignment at all: two render arguments
     ([("for", "i", ("n", "x"), None, [("out", [("n", "a")])], []), ("set", "a", ("i", 1))], {"a": 5, "x": [0, 0]}),
     ([("with", [], [("out", [("n", "a")])]), ("set", "a", ("i", 1))], {"a": 5}),
     ([("filt", "u", [("out", [("n", "a")])]), ("set", "a", ("s", "z"))], {"a": "q"}),
@@ -510,7 +540,7 @@ def run(ctx):
     # NFKC hypothesis-violating inputs inside the quantifier: rename two pool names onto an NFKC-equal pair
     for i in range(ctx.size(60, 300)):
         p, datas = progs[rng.randrange(len(progs))]
-        pair = rng.choice([("ﬁ", "fi"), ("µ", "μ"), ("ｂ", "b"), ("ⅰ", "i")])
+        pair = rng.choice([("ﬁ", "fi"), ("µ", "μ"), ("ｂ", "b"), ("ⅰ", "i"), ("ª", "a"), ("ℌ", "H"), ("ǆ", "dž")])
         m = {"a": pair[0], "b": pair[1]}
         batch.append({"prog": G.rename_prog(p, m), "datas": [{m.get(k, k): v for k, v in datas[0].items()}], "kind": "nfkc"})
     for i in range(0, len(batch), 400):
